@@ -6,6 +6,8 @@ from common import Driver, Report, ser_result, ser_diagram, ser_ty, wf_failure, 
 from core import Family, Gen, tok_expr, tok_ty, tok_box, spec_box, ty_l, ty_r
 from sums import SumGen, run_sum, sum_class, tok_sexpr, ser_sum_result
 from c04img import run_image_stream
+from c04cat import run_cat_stream
+from c04ob import run_obmap_stream, make_ob, flavours_for
 
 PROP = "C04"
 TARGET = ["p", "q", "r"]
@@ -63,10 +65,18 @@ def tok_functor(obmap, armap):
         len(armap), " ".join("%s %s" % (tok_box(b), tok_expr(e)) for b, e in armap))
 
 
-def real_functor(fam, obmap, armap, style):
+OB_FLAVOURS = ("by_name", "quiver", "mapping", "callable_obj", "by_name_z", "dict_stray", "aware",
+               "missing", "quiver_lookup")     # c04ob.make_ob; the last three rigid-only ones fall back
+
+
+def real_functor(fam, obmap, armap, style, ob_flavour=None):
+    """`ob_flavour`: how the object map is handed over (c04ob.make_ob); None = as `style` says."""
     m = fam.m
     ob = {fam.ty([(n, 0)]): fam.ty(t) for n, t in obmap.items()}
     ar = {fam.box(b): fam.run(e) for b, e in armap}
+    if ob_flavour is not None:
+        obj = make_ob(fam, obmap, ob_flavour)
+        return m.Functor(ob=obj, ar=(lambda b: ar[b]) if style != "dict" else ar)
     if style == "callable":
         return m.Functor(ob=lambda t: ob[t], ar=lambda b: ar[b])
     if style == "total":
@@ -117,7 +127,17 @@ def run(tier, seed, replay=None):
                 "terms; non-trivial = diagram of >= 2 boxes and at least one object image of "
                 "length != 1; image stream: box images that are formal sums of 0-3 terms, bubbles, bare "
                 "boxes (incl. Swap/Cup/Cap for a generic box), identities, diagrams with a Sum box; source "
-                "diagrams with Sum / Bubble boxes; non-trivial there = >= 2 boxes and a sum image used")
+                "diagrams with Sum / Bubble boxes; non-trivial there = >= 2 boxes and a sum image used; "
+                "cat stream: cat.Functor on plain cat.Arrows of 0-5 boxes (objects cat.Ob, or monoidal.Ty of "
+                "length 0-2 mapped as a whole), the same image families (plain 0-3 boxes, bare box, identity, "
+                "sums of 0-3 terms, bubbles, arrows with a Sum box), mappings as dict / callable / Quiver / "
+                "mixed; non-trivial = >= 2 boxes and a sum image used; object-map stream: 14 flavours of "
+                "object map (dict, dict with stray entries for adjoint objects, KeyError-raising lookup, total "
+                "functions of the name / of (name, z), adjoint-aware function, Quivers, callable object, "
+                "Mapping, dict with __missing__, lambda t: t / t @ t / Ty()) x image length 0-3 x winding "
+                "number -2..2 x shapes (types and their .l .r .l.l .r.r .l.r, Id, boxes with adjoints, "
+                "composite, Cup / Cap in both orientations, nested cups / caps, transposes, snake); every "
+                "third case of the main stream uses one of these flavours; non-trivial = rigid with z != 0")
     rep.partial = ["F_dagger, F_sum_dagger: proved under the box-level dagger law only (false as == for "
                    "Swap(x, y) with two multi-wire images: finding F6, decided witness F6_swap_witness)",
                    "images of bubbles (cat.py:836-838) are not modelled",
@@ -126,9 +146,21 @@ def run(tier, seed, replay=None):
                    "finding F4c04a); the image of a formal sum whose terms have sum images is nested "
                    "(finding F4c04b) and not modelled",
                    "bubble images, images containing a Sum box, source Sum / Bubble boxes: oracle only "
-                   "(structure compared with an independent reference, laws as ==), no model"]
+                   "(structure compared with an independent reference, laws as ==), no model",
+                   "cat level: CF_image, CF_typing, CF_id, CF_then, CF_thenN proved for plain images "
+                   "(CFunctor, Model/CatArrow.lean); sum images at the cat level are compared with the "
+                   "monoidal model FunctorS.applyS on the embedded request (one-wire types, offsets 0): no "
+                   "theorem states that embedding; bubble / Sum-box images at the cat level oracle only",
+                   "object maps: the model receives every flavour as its base-object table (Functor.ob1 derives "
+                   "adjoints from the base image, F_adjoint_l / F_adjoint_r); Python's dispatch on "
+                   "Mapping / callable / __contains__ is not modelled"]
+    import os, sys, time
+    t0 = time.time()
+    lap = (lambda what: sys.stderr.write("[c04 %s %.1fs]\n" % (what, time.time() - t0))) \
+        if os.environ.get("VERIF_TIMING") else (lambda what: None)
     rep.lean = lean_obligations(PROP, thorough=(tier == "thorough"))
-    n_cases = 150 if tier == "quick" else 6000
+    lap("lean")
+    n_cases = 150 if tier == "quick" else 4000
     rng = random.Random(seed)
     drv = Driver()
     fams = {"monoidal": Family("monoidal"), "rigid": Family("rigid")}
@@ -154,11 +186,30 @@ def run(tier, seed, replay=None):
             malformed = (k % 12 == 11)
             obmap, armap = gen_functor(r, famn == "rigid", allboxes, malformed)
             style = ("callable", "dict", "total", "dict")[k % 4]
-            F = real_functor(fam, obmap, armap, style)
+            # every third case hands the object map over in another flavour (total callables of the
+            # object's name, Quivers, Mappings, dicts with stray entries for adjoint objects, ...)
+            ob_flavour = None
+            if k % 3 == 2:
+                ob_flavour = OB_FLAVOURS[(k // 3) % len(OB_FLAVOURS)]
+                if ob_flavour not in flavours_for(famn == "rigid"):
+                    ob_flavour = "by_name"
+            F = real_functor(fam, obmap, armap, style, ob_flavour)
+            rep.count("obmap:" + (ob_flavour or ("dict" if style == "dict" else "lookup")))
             ftok = tok_functor(obmap, armap)
             case = dict(family=famn, expr=repr(e), obmap=repr(obmap), armap=repr(armap)[:2000],
-                        style=style)
+                        style=style, ob_flavour=ob_flavour)
             d = fam.run(e)
+            # ---- the object map alone: F(t) is made of the images of the BASE objects, each taken to
+            #      its |z|-fold adjoint — however the map is handed over (the box map plays no part)
+            for what, spec in (("dom", scans[0]), ("cod", scans[-1])):
+                try:
+                    got, want = F(fam.ty(spec)), fam.ty(img_ty(obmap, spec))
+                    bad = None if got == want else "F(%s) = %s, expected %s" % (fam.ty(spec), got, want)
+                except Exception as exc:
+                    bad = "F(%s) raised %s" % (spec, err_class(exc))
+                if bad:
+                    rep.fail("type_image_not_from_base_objects:" + (ob_flavour or style),
+                             dict(case, type=repr(spec)), bad)
             # ---- functional correspondence
             line = "functor %s %s" % (ftok, tok_expr(e))
             model = drv.ask(line)
@@ -278,11 +329,22 @@ def run(tier, seed, replay=None):
             for bx in d.boxes:
                 if type(bx).__name__ == "Swap":
                     law("swap", lambda: F(bx), lambda: fam.m.Diagram.swap(F(bx.dom[:1]), F(bx.dom[1:])))
+        lap("main")
         # ---- box maps whose images are not plain diagrams (formal sums, bubbles, bare special boxes,
         #      identities, diagrams containing a Sum box), source diagrams with Sum / Bubble boxes
         run_image_stream(rep, drv, fams, random.Random(seed * 7919 + 404),
                          80 if tier == "quick" else 400,
                          max_terms=12 if tier == "quick" else 24)
+        lap("image")
+        # ---- the same image families at the level of the free category (cat.Functor on cat.Arrow)
+        run_cat_stream(rep, drv, random.Random(seed * 104729 + 411),
+                       160 if tier == "quick" else 1000,
+                       max_terms=12 if tier == "quick" else 24)
+        lap("cat")
+        # ---- object maps of every flavour x winding numbers x image lengths x shapes
+        run_obmap_stream(rep, drv, fams, random.Random(seed * 15485863 + 17),
+                         1, per_cell=5 if tier == "quick" else None)
+        lap("obmap")
     finally:
         drv.close()
     return rep.finish()
